@@ -153,11 +153,11 @@ DECIDABLE predicate on rune strings, no size bound): plain words, also with plac
 block brace), any non-CR white space /
 indentation / blank lines, arbitrarily nested `… {⏎ … ⏎}` blocks, simple double-quoted strings
 (one line, no backslash, followed by white space), simple backquoted strings (one line, any
-characters incl. backslash, followed by white space), comments (own line or after a
-word; any text without backslash / trailing blank).  NOT covered by these two
+characters incl. backslash, followed by white space), comments (own line, after a
+word, or after `{` on the same line — that one is moved to the next line; any text without backslash / trailing blank).  NOT covered by these two
 theorems (only by the correspondence stream and the impl-side oracle): multi-line or escaped
 quoted strings, heredoc tokens, line continuations, `#`/`"`/`<` inside words, CR, comments
-directly after a brace on the same line or directly before `{`.
+directly after `}` on the same line or directly before `{`.
 -/
 
 /-- on `W`, `Format` is the canonical re-rendering of the chunks (exact output) -/
@@ -198,6 +198,9 @@ example : inW (runes "{$SITE}:443 {\n  root * {env.ROOT}/www\n  {args[0]} a{x}b 
   decide
 set_option maxRecDepth 100000 in
 example : format (runes "a\n{x} b") = runes "a \n{x} b\n" := by decide
+-- a comment after `{` on the same line is moved into the block
+set_option maxRecDepth 100000 in
+example : inW (runes "a { # c\nb\n}") = true ∧ format (runes "a { # c\nb\n}") = runes "a {\n\t# c\n\tb\n}\n" := by decide
 -- backquoted strings: literal, a backslash is an ordinary character in them
 set_option maxRecDepth 100000 in
 example : inW (runes "root  `C:\\sites\\a b`  {\n respond `say \"hi\" # {x}` 200\n}\n``") = true := by
